@@ -429,6 +429,77 @@ theorem sealed_namespace_unreachable (s : St) (t : Tok) (ctx : Option Bytes) (hd
         rw [h2] at hid; injection hid with hid _
         exact ⟨n, hn, by rw [← hid]; exact hord, hr _ hrt⟩
 
+/-! ### separately sealed namespaces, nested, over all histories
+
+`Ns.sealed` of an own-seal namespace = "its OWN key shares were not supplied since a seal last covered it".
+A history is any list of events: namespace creation (own-seal namespaces start sealed), `sealEv p`, `unsealEv p`
+(with `p`'s own shares), requests, arbitrary changes of mount table and token set. -/
+
+/-- Sealing a namespace seals the barrier of EVERY own-seal namespace at or below it (`sealNamespaceLocked`'s
+post-order walk) — whatever the tree, however deeply nested. -/
+theorem seal_covers_descendant_barriers (s : St) (p : Bytes) :
+    (∀ n ∈ (sealNs s p).nss, n.sealable = true → p <+: n.path → n.sealed = true) ∧
+    (underSealed s p = false → ∀ n ∈ (stepEv s (.sealEv p)).nss, n.sealable = true → p <+: n.path → n.sealed = true) := by
+  refine ⟨sealNs_covers s p, ?_⟩
+  intro h n hn
+  simp only [stepEv, sealOp, h, Bool.false_eq_true, if_false, if_true] at hn
+  exact sealNs_covers s p n hn
+
+/-- Unsealing a namespace with ITS shares unseals nothing else: every other namespace entry — in particular a
+child with its own seal that the covering seal sealed — is exactly what it was, still sealed. More generally a sealed
+own-seal namespace stays sealed through EVERY history that contains no unseal of that namespace itself (seals and
+unseals of parents, siblings and children, namespace creations, requests, mount and token changes). -/
+theorem unseal_parent_does_not_unseal_child :
+    (∀ (s : St) (p : Bytes) (c : Ns), c ∈ s.nss → c.path ≠ p → c ∈ (unsealNs s p).nss) ∧
+    (∀ (evs : List Ev) (s : St) (c : Ns), c ∈ s.nss → c.sealed = true →
+       (∀ e ∈ evs, e ≠ Ev.unsealEv c.path) → c ∈ (runEvs s evs).nss) :=
+  ⟨unsealNs_other, stays_sealed⟩
+
+/-- Over ALL histories from the empty state and all namespace trees (own-seal namespaces nested to any depth): no
+request touches storage of a mount or cubbyhole of a namespace `q` while some own-seal namespace at or above `q` is
+sealed, i.e. while the own shares of that namespace were not supplied since a seal (of it or of an ancestor) last
+covered it. -/
+theorem sealed_namespace_unreachable_histories (evs : List Ev) (t : Tok) (ctx : Option Bytes) (hdr path : Bytes)
+    (op : OpKind) (skey : Bytes) :
+    let s := runEvs {} evs
+    ∀ tch ∈ (request s t ctx hdr path op skey).2.2,
+      (∀ id, tch.tgt = .mount id → ∃ m ∈ s.mounts, m.id = id ∧
+         ∀ a ∈ s.nss, a.sealable = true → a.sealed = true → ¬ a.path <+: m.ns) ∧
+      (∀ no owner, tch.tgt = .cubby no owner → ∃ n ∈ allNs s, nsOrd s n.path = some no ∧
+         ∀ a ∈ s.nss, a.sealable = true → a.sealed = true → ¬ a.path <+: n.path) := by
+  intro s tch htch
+  have hwf : NsWf s := runEvs_wf evs {} ⟨(by intro a ha; cases ha), (by intro a ha; cases ha)⟩
+  obtain ⟨ns, rel, _, hok⟩ := request_touches s t ctx hdr path op skey tch htch
+  constructor
+  · intro id hid
+    rcases hok with ⟨m, r, h1, h2, _⟩ | ⟨no, r, _, h2, _⟩
+    · obtain ⟨hm, hrt⟩ := routeIn_rec _ _ _ _ _ h1
+      rw [h2] at hid; injection hid with hid
+      exact ⟨m, hm, hid, routable_no_sealed_above s hwf m.ns hrt⟩
+    · rw [h2] at hid; cases hid
+  · intro no owner hid
+    rcases hok with ⟨m, r, _, h2, _⟩ | ⟨no', r, h1, h2, _⟩
+    · rw [h2] at hid; cases hid
+    · obtain ⟨n, hn, hrt, hord⟩ := routeIn_cubby _ _ _ _ _ h1
+      rw [h2] at hid; injection hid with hid _
+      exact ⟨n, hn, by rw [← hid]; exact hord, routable_no_sealed_above s hwf n.path hrt⟩
+
+/-- non-vacuity (nested own seals): after create, unseal both, seal(out), unseal(out) the child `out/in/` — whose own
+shares were NOT supplied again — is still sealed: a request into it is refused and touches nothing, a request into
+`out/` is served; after unseal(in) the child serves again; unsealing the child while the parent is sealed is refused. -/
+example :
+    let evs : List Ev := [.addNs (strOf "out/") true, .unsealEv (strOf "out/"), .addNs (strOf "out/in/") true,
+      .unsealEv (strOf "out/in/"),
+      .setup [⟨strOf "out/", strOf "m1/", 1⟩, ⟨strOf "out/in/", strOf "m1/", 2⟩] [],
+      .sealEv (strOf "out/"), .unsealEv (strOf "out/in/"), .unsealEv (strOf "out/")]
+    let t : Tok := { ord := 0, ns := [], isRoot := true, pats := [] }
+    let s := runEvs {} evs
+    (request s t (some []) [] (strOf "out/in/m1/raw/a") .read (strOf "k")).2.2 = [] ∧
+    (request s t (some []) [] (strOf "out/m1/raw/a") .read (strOf "k")).2.2 = [⟨.mount 1, .get, strOf "k"⟩] ∧
+    (request (stepEv s (.unsealEv (strOf "out/in/"))) t (some []) [] (strOf "out/in/m1/raw/a") .read (strOf "k")).2.2
+      = [⟨.mount 2, .get, strOf "k"⟩] := by
+  decide
+
 /-- FULL statement (false on the current tree when the core runs with `UnsafeRelativePaths`): the mount a request
 is served by belongs to the namespace the request was resolved to (whose seal / API-lock / quota checks were applied). -/
 def request_in_resolved_namespace_full : Prop :=
